@@ -3,6 +3,7 @@ package main
 import (
 	"context"
 	"fmt"
+	"hash/fnv"
 	"math/rand"
 	"runtime"
 
@@ -65,7 +66,15 @@ func famDist(sc *scn.Scenario, em func(vt.Ev)) {
 	// cfg.fallback = 1: constructs the engine does not support are part of the comparison - the central
 	// engine, the distributed engine and the remote engines all have the fallback enabled
 	noFallback := sc.CfgInt("fallback", 0) == 0
-	central := engine.New(run.EngineOpts(sc, "default", noFallback, nil))
+	// one scenario in three (by id): the engines are given the list of all optimizers explicitly
+	optimizers := "default"
+	if h := fnv.New32a(); true {
+		h.Write([]byte(sc.ID))
+		if (h.Sum32()>>9)%3 == 0 {
+			optimizers = "all"
+		}
+	}
+	central := engine.New(run.EngineOpts(sc, optimizers, noFallback, nil))
 	cout := run.Exec(context.Background(), central, vstore.New(all), sc, false)
 	if cout.CreateErr != nil {
 		em(vt.Ev{"ev": "skip", "why": "not native", "q": q})
@@ -95,7 +104,11 @@ func famDist(sc *scn.Scenario, em func(vt.Ev)) {
 			}
 			remotes = append(remotes, engine.NewLocalEngine(run.EngineOpts(sc, "default", false, nil), vstore.New(part)))
 		}
-		de := engine.NewDistributedEngine(run.EngineOpts(sc, "default", noFallback, nil), api.NewStaticEndpoints(remotes))
+		de := engine.NewDistributedEngine(run.EngineOpts(sc, optimizers, noFallback, nil), api.NewStaticEndpoints(remotes))
+		// a second distributed engine of the same process, built with the same options over engines of its own
+		// (another tenant, holding nothing): it is never asked anything
+		_ = engine.NewDistributedEngine(run.EngineOpts(sc, optimizers, noFallback, nil), api.NewStaticEndpoints([]api.RemoteEngine{
+			engine.NewLocalEngine(run.EngineOpts(sc, "default", false, nil), vstore.New(nil))}))
 		local := vstore.New(all)
 		dout := run.Exec(context.Background(), de, local, sc, false)
 		em(vt.Ev{"ev": "cfg", "cfg": fmt.Sprintf("distributed engines=%d assignment=%v local_selects=%d", ne, asg, len(local.SelectRecs()))})
